@@ -10,6 +10,7 @@ import PFV.Lex
 import PFV.Ref
 import PFV.Spec
 import PFV.Gen
+import PFV.Rand
 import PFV.Compat
 namespace PFV
 namespace Driver
@@ -366,37 +367,60 @@ def firstDiff : List UInt8 → List UInt8 → Nat → Option Nat
   | a :: as, b :: bs, i => if a == b then firstDiff as bs (i + 1) else some i
   | _, _, i => some i
 
-def genLine (mods : List (List UInt8 × List UInt8)) (toks : List String) : String :=
+def genWith {σ : Type} (E : Entropy σ) (st : σ) (leftOf : σ → String)
+    (mods : List (List UInt8 × List UInt8)) (toks : List String) : String :=
   let id := kvD toks "id" "?"
   let c := fullCfg toks
+  let ftab := ((kvD toks "floats" "-").splitOn ",").filterMap (fun e =>
+    match e.splitOn ":" with
+    | [b, t] => some (hexToUInt64 b, unhex t)
+    | _ => none)
+  let X : G.Ext := { mods := mods, fmt := fmtOf ftab }
+  let res := kvD toks "result" "?"
+  match G.generate E X c st with
+  | .error e =>
+    if res.startsWith "ok:" then s!"gen id={id} FAIL model_panics:{san (reprStr e)}:impl_ok"
+    else s!"gen id={id} ok both_fail model={san (reprStr e)} impl={san res}"
+  | .ok (r, rest) =>
+    if !res.startsWith "ok:" then s!"gen id={id} FAIL model_ok_len={r.bytes.length}:impl={san res}"
+    else
+      let out := unhex (res.drop 3).toString
+      match firstDiff r.bytes out 0 with
+      | none =>
+        let tOk := c.minOps ≤ r.target && (if c.maxOps > c.minOps then r.target < c.maxOps else r.target == c.minOps)
+        let fOk := ftab.all (fun e => Spec.floatOk e.2)
+        s!"gen id={id} ok len={out.length} target={r.target} body={r.bodyLen} n={r.instrs.length} framed={if r.framed then 1 else 0} left={leftOf rest} tbounds={if tOk then 1 else 0} floats={ftab.length} floatok={if fOk then 1 else 0} wf={if Spec.wellFormed r.bytes then 1 else 0}"
+      | some i =>
+        s!"gen id={id} FAIL first_diff_at={i}:model_len={r.bytes.length}:impl_len={out.length}:model={hexOf ((r.bytes.drop (i - min i 4)).take 16)}:impl={hexOf ((out.drop (i - min i 4)).take 16)}"
+
+/-- S3: the exact generator under the exact port of the case's entropy source — `arb:<hex>` the
+`Unstructured` port, `rand:<seed>` the ChaCha8 port -/
+def genLine (mods : List (List UInt8 × List UInt8)) (toks : List String) : String :=
+  let id := kvD toks "id" "?"
   let mode := kvD toks "mode" "?"
-  if !mode.startsWith "arb:" then s!"gen id={id} skipped=not-arbitrary-mode"
-  else
-    let input := unhex (mode.drop 4).toString
-    let ftab := ((kvD toks "floats" "-").splitOn ",").filterMap (fun e =>
-      match e.splitOn ":" with
-      | [b, t] => some (hexToUInt64 b, unhex t)
-      | _ => none)
-    let X : G.Ext := { mods := mods, fmt := fmtOf ftab }
-    let res := kvD toks "result" "?"
-    match G.generate Arb.E X c input with
-    | .error e =>
-      if res.startsWith "ok:" then s!"gen id={id} FAIL model_panics:{san (reprStr e)}:impl_ok"
-      else s!"gen id={id} ok both_fail model={san (reprStr e)} impl={san res}"
-    | .ok (r, rest) =>
-      if !res.startsWith "ok:" then s!"gen id={id} FAIL model_ok_len={r.bytes.length}:impl={san res}"
-      else
-        let out := unhex (res.drop 3).toString
-        match firstDiff r.bytes out 0 with
-        | none =>
-          let tOk := c.minOps ≤ r.target && (if c.maxOps > c.minOps then r.target < c.maxOps else r.target == c.minOps)
-          let fOk := ftab.all (fun e => Spec.floatOk e.2)
-          s!"gen id={id} ok len={out.length} target={r.target} body={r.bodyLen} n={r.instrs.length} framed={if r.framed then 1 else 0} left={rest.length} tbounds={if tOk then 1 else 0} floats={ftab.length} floatok={if fOk then 1 else 0} wf={if Spec.wellFormed r.bytes then 1 else 0}"
-        | some i =>
-          s!"gen id={id} FAIL first_diff_at={i}:model_len={r.bytes.length}:impl_len={out.length}:model={hexOf ((r.bytes.drop (i - min i 4)).take 16)}:impl={hexOf ((out.drop (i - min i 4)).take 16)}"
+  if mode.startsWith "arb:" then
+    genWith Arb.E (unhex (mode.drop 4).toString) (fun rest => toString rest.length) mods toks
+  else if mode.startsWith "rand:" then
+    genWith Rand.E (Rand.seed ((mode.drop 5).toString.toNat?.getD 0)) (fun _ => "-") mods toks
+  else s!"gen id={id} skipped=unknown-mode"
 
 def entOf (s : String) : Option (List UInt8) :=
   if s.startsWith "arb:" then some (unhex (s.drop 4).toString) else none
+
+/-- one draw of the entropy interface under a given source, rendered like the harness renders it -/
+def srcModel {σ : Type} (E : Entropy σ) (st : σ) (m : String) (a b : Nat) : String × σ :=
+  match m with
+  | "choose_index" => let (v, r) := E.chooseIndex st a; (toString v, r)
+  | "gen_bool" => let (v, r) := E.genBool st; ((if v then "1" else "0"), r)
+  | "gen_u8" => let (v, r) := E.genU8 st; (toString v, r)
+  | "gen_u16" => let (v, r) := E.genU16 st; (toString v, r)
+  | "gen_u32" => let (v, r) := E.genU32 st; (toString v, r)
+  | "gen_i32" => let (v, r) := E.genI32 st; (toString v, r)
+  | "gen_i64" => let (v, r) := E.genI64 st; (toString v, r)
+  | "gen_f64" => let (v, r) := E.genF64 st; (hex16 v, r)
+  | "gen_range" => let (v, r) := E.genRange st a b; (toString v, r)
+  | "gen_bytes" => let (v, r) := E.genBytes st a; ((if v.isEmpty then "-" else hexOf v), r)
+  | _ => let (v, r) := E.genAsciiChar st; (toString v.toNat, r)
 
 def srcLine (toks : List String) : String :=
   let m := kvD toks "method" "?"
@@ -420,21 +444,16 @@ def srcLine (toks : List String) : String :=
   match contract with
   | some w => fail ("contract:" ++ w)
   | none =>
-    match entOf (kvD toks "ent" "?") with
-    | none => "src ok rand"
+    let ent := kvD toks "ent" "?"
+    match entOf ent with
+    | none =>
+      if ent.startsWith "rand:" then
+        -- exact comparison with the ChaCha8 port (a fresh generator seeded with the given seed)
+        let (mr, _) := srcModel Rand.E (Rand.seed ((ent.drop 5).toString.toNat?.getD 0)) m a b
+        if mr == res then "src ok rand-exact" else fail s!"model={mr}"
+      else "src ok rand"
     | some bs =>
-      let (mr, rest) : String × List UInt8 := match m with
-        | "choose_index" => let (v, r) := Arb.E.chooseIndex bs a; (toString v, r)
-        | "gen_bool" => let (v, r) := Arb.E.genBool bs; ((if v then "1" else "0"), r)
-        | "gen_u8" => let (v, r) := Arb.E.genU8 bs; (toString v, r)
-        | "gen_u16" => let (v, r) := Arb.E.genU16 bs; (toString v, r)
-        | "gen_u32" => let (v, r) := Arb.E.genU32 bs; (toString v, r)
-        | "gen_i32" => let (v, r) := Arb.E.genI32 bs; (toString v, r)
-        | "gen_i64" => let (v, r) := Arb.E.genI64 bs; (toString v, r)
-        | "gen_f64" => let (v, r) := Arb.E.genF64 bs; (hex16 v, r)
-        | "gen_range" => let (v, r) := Arb.E.genRange bs a b; (toString v, r)
-        | "gen_bytes" => let (v, r) := Arb.E.genBytes bs a; ((if v.isEmpty then "-" else hexOf v), r)
-        | _ => let (v, r) := Arb.E.genAsciiChar bs; (toString v.toNat, r)
+      let (mr, rest) := srcModel Arb.E bs m a b
       if mr == res && toString rest.length == left then "src ok arb"
       else fail s!"model={mr}:left={rest.length}:impl_left={left}"
 
@@ -528,6 +547,36 @@ def pushesData (o : Op) : Bool :=
       | none => false)
   | .error _ => false
 
+/-- one mutator call under a given entropy source, rendered like the harness renders it; the second
+component measures what is left of the source -/
+def mutModel {σ : Type} (E : Entropy σ) (bs : σ) (leftOf : σ → Nat) (m : Mut) (method value : String) (rate : UInt64) :
+    String × Nat :=
+  match method with
+  | "int" => (match Mutators.mutateInt E 32 Gen.boundInt m (value.toInt?.getD 0) bs rate with
+      | .ok (r, rest) => (optStr toString r, leftOf rest) | .error e => ("panic:" ++ reprStr e, 0))
+  | "long" => (match Mutators.mutateInt E 64 Gen.boundLong m (value.toInt?.getD 0) bs rate with
+      | .ok (r, rest) => (optStr toString r, leftOf rest) | .error e => ("panic:" ++ reprStr e, 0))
+  | "float" => (match Mutators.mutateFloat E m (hexToUInt64 value) bs rate with
+      | .ok (r, rest) => (optStr hex16 r, leftOf rest) | .error e => ("panic:" ++ reprStr e, 0))
+  | "string" => (match Mutators.mutateString E m (utf8Decode (unhex value)) bs rate with
+      | .ok (r, rest) => (optStr (fun cs => hexOrDash (G.utf8 cs)) r, leftOf rest) | .error e => ("panic:" ++ reprStr e, 0))
+  | "bytes" => (match Mutators.mutateBytes E m (unhex value) bs rate with
+      | .ok (r, rest) => (optStr hexOrDash r, leftOf rest) | .error e => ("panic:" ++ reprStr e, 0))
+  | "memo" => (match Mutators.mutateMemo E m (value.toNat?.getD 0) bs rate with
+      | .ok (r, rest) => (optStr toString r, leftOf rest) | .error e => ("panic:" ++ reprStr e, 0))
+  | _ =>
+    (match value.splitOn "+" with
+     | [pre, delta] =>
+       let preB := unhex pre; let deltaB := unhex delta
+       (match m with
+        | .typeconfusion uu =>
+          (match Mutators.typeConfusion E uu deltaB.head? bs rate with
+           | .ok (some ins, rest) => ("changed:" ++ hexOrDash (preB ++ Enc.encode ins), leftOf rest)
+           | .ok (none, rest) => ("same:" ++ hexOrDash (preB ++ deltaB), leftOf rest)
+           | .error e => ("panic:" ++ reprStr e, 0))
+        | _ => ("same:" ++ hexOrDash (preB ++ deltaB), leftOf bs))
+     | _ => ("?", 0))
+
 def mutLine (toks : List String) : String :=
   let kind := kvD toks "kind" "?"
   let u := kvBool toks "unsafe"
@@ -581,37 +630,19 @@ def mutLine (toks : List String) : String :=
     | some w, _ => fail ("C16:" ++ w)
     | _, some w => fail w
     | none, none =>
-      match entOf (kvD toks "ent" "?") with
-      | none => "mut ok rand"
+      let ent := kvD toks "ent" "?"
+      let isNaNRes (x : String) : Bool := x.startsWith "some:" && method == "float" && G.f64IsNaN (hexToUInt64 (x.drop 5).toString)
+      match entOf ent with
+      | none =>
+        if ent.startsWith "rand:" then
+          -- exact comparison under the ChaCha8 port
+          let modelRes := mutModel Rand.E (Rand.seed ((ent.drop 5).toString.toNat?.getD 0)) (fun _ => 0) m method value rate
+          if modelRes.1 == res || (isNaNRes modelRes.1 && isNaNRes res) then "mut ok rand-exact"
+          else fail s!"model={modelRes.1}"
+        else "mut ok rand"
       | some bs =>
         -- exact comparison with the model under the Unstructured port
-        let modelRes : String × Nat :=
-          match method with
-          | "int" => (match Mutators.mutateInt Arb.E 32 Gen.boundInt m (value.toInt?.getD 0) bs rate with
-              | .ok (r, rest) => (optStr toString r, rest.length) | .error e => ("panic:" ++ reprStr e, 0))
-          | "long" => (match Mutators.mutateInt Arb.E 64 Gen.boundLong m (value.toInt?.getD 0) bs rate with
-              | .ok (r, rest) => (optStr toString r, rest.length) | .error e => ("panic:" ++ reprStr e, 0))
-          | "float" => (match Mutators.mutateFloat Arb.E m (hexToUInt64 value) bs rate with
-              | .ok (r, rest) => (optStr hex16 r, rest.length) | .error e => ("panic:" ++ reprStr e, 0))
-          | "string" => (match Mutators.mutateString Arb.E m (utf8Decode (unhex value)) bs rate with
-              | .ok (r, rest) => (optStr (fun cs => hexOrDash (G.utf8 cs)) r, rest.length) | .error e => ("panic:" ++ reprStr e, 0))
-          | "bytes" => (match Mutators.mutateBytes Arb.E m (unhex value) bs rate with
-              | .ok (r, rest) => (optStr hexOrDash r, rest.length) | .error e => ("panic:" ++ reprStr e, 0))
-          | "memo" => (match Mutators.mutateMemo Arb.E m (value.toNat?.getD 0) bs rate with
-              | .ok (r, rest) => (optStr toString r, rest.length) | .error e => ("panic:" ++ reprStr e, 0))
-          | _ =>
-            (match value.splitOn "+" with
-             | [pre, delta] =>
-               let preB := unhex pre; let deltaB := unhex delta
-               (match m with
-                | .typeconfusion uu =>
-                  (match Mutators.typeConfusion Arb.E uu deltaB.head? bs rate with
-                   | .ok (some ins, rest) => ("changed:" ++ hexOrDash (preB ++ Enc.encode ins), rest.length)
-                   | .ok (none, rest) => ("same:" ++ hexOrDash (preB ++ deltaB), rest.length)
-                   | .error e => ("panic:" ++ reprStr e, 0))
-                | _ => ("same:" ++ hexOrDash (preB ++ deltaB), bs.length))
-             | _ => ("?", 0))
-        let isNaNRes (x : String) : Bool := x.startsWith "some:" && method == "float" && G.f64IsNaN (hexToUInt64 (x.drop 5).toString)
+        let modelRes := mutModel Arb.E bs (fun rest => rest.length) m method value rate
         if (modelRes.1 == res || (isNaNRes modelRes.1 && isNaNRes res)) && toString modelRes.2 == left then "mut ok arb"
         else fail s!"model={modelRes.1}:left={modelRes.2}:impl_left={left}"
 
